@@ -127,6 +127,31 @@ def main(argv=None):
                 refactors_total=len(rres), refactors_silent=len([r for r in rres if r['status'] == 'silent']),
                 refactors_skipped=len([r for r in rres if r['status'] == 'skipped']),
                 detail=mres + rres)
+            # thorough: every repaired defect (fixed: entries) must be reported again when its fix is reverted
+            if a.tier == 'thorough':
+                from . import selftest
+                rv = []
+                for fprop, commit, what in selftest.fixed_entries(prop):
+                    ov = selftest.revert_overlay(a.repo, commit)
+                    name = 'revert fix %s (%s)' % (commit, what[:70])
+                    if ov is None:
+                        rv.append(dict(name=name, status='skipped', why='commit not available or reverse patch does not apply'))
+                        continue
+                    st, payload = _run_variant((prop, a.repo, ov, 'quick'))
+                    r = dict(name=name)
+                    if st != 'ok':
+                        r['status'] = 'fail-closed'
+                        r['why'] = payload.strip().splitlines()[-1][:200]
+                    else:
+                        new = [d for k, d in payload if k not in base_keys]
+                        r['status'] = 'killed' if new else 'MISSED'
+                        if new:
+                            r['by'] = '%s %s' % (new[0]['rule'], new[0]['construct'])
+                    rv.append(r)
+                controls['fix_reverts_total'] = len(rv)
+                controls['fix_reverts_reported'] = len([r for r in rv if r['status'] in ('killed', 'fail-closed')])
+                controls['detail'] += rv
+                mres = mres + rv
             for r in mres:
                 if r['status'] == 'MISSED':
                     problems.append('positive control %r applied but no rule fired' % r['name'])
